@@ -201,6 +201,27 @@ Fixpoint tr_run (st : truf) (adds : list (nat * nat)) : res truf :=
   | (x, y) :: rest => do (st1, _) <- tr_add st x y; tr_run st1 rest
   end.
 
+(* histories mixing add with add_node_new (trrel_union_find.rs:107, pub(crate): called by the trrel_uf provider on the
+   elements of a Delta; creates a singleton class WITHOUT entries in the two connection maps) *)
+Inductive trop : Type := TAdd (x y : nat) | TNodeNew (x : nat).
+
+(* the op's return value, flattened: add -> [bool]; add_node_new -> [id; bool] *)
+Definition tr_step (st : truf) (o : trop) : res (truf * list nat) :=
+  match o with
+  | TAdd x y => do (st1, b) <- tr_add st x y; Ok (st1, [if b then 1 else 0])
+  | TNodeNew x => do (st1, id, fr) <- add_node_new st x; Ok (st1, [id; if fr then 1 else 0])
+  end.
+
+Fixpoint tr_run_ops (st : truf) (ops : list trop) : res truf :=
+  match ops with
+  | [] => Ok st
+  | o :: rest => do (st1, _) <- tr_step st o; tr_run_ops st1 rest
+  end.
+
+(* the pairs whose closure a mixed history generates: add_node_new x mentions x *)
+Definition pairs_of (ops : list trop) : list (nat * nat) :=
+  map (fun o => match o with TAdd x y => (x, y) | TNodeNew x => (x, x) end) ops.
+
 (* ---- queries *)
 Fixpoint mapM {A B} (f : A -> res B) (l : list A) : res (list B) :=
   match l with
@@ -321,6 +342,20 @@ Fixpoint tr_trace (dom : nat) (st : truf) (adds : list (nat * nat)) (i : nat) (a
     | Ok (st1, b) =>
       match obs_queries dom st1 with
       | Ok q => tr_trace dom st1 rest (S i) ((zb b :: q ++ obs_tr_state dom st1) :: acc)
+      | Err e => ZErr (rev acc) i e
+      end
+    | Err e => ZErr (rev acc) i e
+    end
+  end.
+
+Fixpoint tr_trace_ops (dom : nat) (st : truf) (ops : list trop) (i : nat) (acc : list (list Z)) : ztrace :=
+  match ops with
+  | [] => ZOk (rev acc)
+  | o :: rest =>
+    match tr_step st o with
+    | Ok (st1, out) =>
+      match obs_queries dom st1 with
+      | Ok q => tr_trace_ops dom st1 rest (S i) ((map Z.of_nat (length out :: out) ++ q ++ obs_tr_state dom st1) :: acc)
       | Err e => ZErr (rev acc) i e
       end
     | Err e => ZErr (rev acc) i e
